@@ -996,7 +996,17 @@ class Interp:
         tgt = node.func.value
         if not isinstance(tgt, ast.Name):
             raise OutsideSubset('mutating method on a non-variable: %s' % short(node))
+        self.note_mutation(tgt.id)
         self.env[tgt.id] = newval
+
+    def note_mutation(self, name):
+        """Frame: an object received as a parameter may only be mutated if the contract lists it under `modifies`
+        (the postcondition of a parameter outside `modifies` is stated over its entry value, and callers assume it unchanged)."""
+        c = self.fn_contract
+        if c is None or getattr(self, 'ghost_mode', False):
+            return
+        if name in getattr(self, 'param_alias', ()) and name not in c.modifies:
+            self.oblige('frame(%s is mutated but not listed in modifies)' % name, False, 'frame')
 
     def list_method(self, sn, obj, name, args, node):
         U = self.U
@@ -1369,6 +1379,8 @@ class Interp:
             if ls is not None and value is not None:
                 value = self.coerce(value, ls)
             self.env[target.id] = value
+            if hasattr(self, 'param_alias'):
+                self.param_alias.discard(target.id)      # rebound: no longer the caller's object
             return
         if isinstance(target, (ast.Tuple, ast.List)):
             U = self.U
@@ -1384,6 +1396,7 @@ class Interp:
             base = self.ev(target.value)
             hook = getattr(self.U, 'setitem_hooks', {}).get(self.sort_of(base))
             if hook and isinstance(target.value, ast.Name):
+                self.note_mutation(target.value.id)
                 self.env[target.value.id] = hook(self, base, target.slice, value)
                 return
         if isinstance(target, ast.Attribute) and isinstance(target.value, ast.Name):
@@ -1392,12 +1405,14 @@ class Interp:
             if sn0 in self.U.records and target.attr in self.U.records[sn0] and (sn0, target.attr) not in getattr(self.U, 'setattr_hooks', {}):
                 flds = self.U.decl_spec[sn0][1]
                 vals = [self.coerce(value, fs) if f == target.attr else z3.simplify(self.U.rget(sn0, f, base0)) for f, fs in flds]
+                self.note_mutation(target.value.id)
                 self.env[target.value.id] = self.U.mk(sn0, *vals)
                 return
         if isinstance(target, ast.Attribute):
             base = self.ev(target.value)
             hook = getattr(self.U, 'setattr_hooks', {}).get((self.sort_of(base), target.attr))
             if hook and isinstance(target.value, ast.Name):
+                self.note_mutation(target.value.id)
                 self.env[target.value.id] = hook(self, base, value)
                 return
         raise OutsideSubset('assignment target %s' % short(target))
